@@ -415,15 +415,17 @@ def run(pid, tier):
     res = common.Result(pid, tier)
     res.trusted = TRUSTED
     res.assumptions = ['only CPython 3.12.1 exists in the sandbox: the version-conditional arms of the printers are not exercised', 'the reference parser is validated against ast.parse only on printed and perturbed texts of the operator core']
-    common.standard_proof_phase(res, ['prectable', 'pipeline', 'tokenrules'], 'Properties/C02.v', model_targets=['Model/SyntaxTable.vo', 'Model/IntLit.vo', 'Model/StrDecode.vo'])
+    common.standard_proof_phase(res, ['prectable', 'pipeline', 'tokenrules'], 'Properties/C02.v', model_targets=['Model/SyntaxTable.vo', 'Model/IntLit.vo', 'Model/StrDecode.vo', 'Model/FStr.vo', 'Model/Renamer.vo'])
     r = common.rng(pid)
     eff = tier if (not res.broken or tier == 'thorough') else 'search'
     with common.coq_lock():
         nPr, nP = legs_core(res, r, eff)
         nL = leg_L(res, r, eff)
         nDa, nDb = leg_D(res, r, eff)
+        from harness.props import c12 as _c12
+        nQ = _c12.leg_Q(res, r, 'quick')
     nO = oracle(res, r, eff)
     res.samples = ['(-v1**-v2)**v3*(v4+v5)', FORMS[30].format('a', 'b'), STMTS[18]]
-    res.coverage.update({'leg_Pr_trees': nPr, 'leg_P_texts': nP, 'leg_L_integers': nL, 'leg_D_ministring_cases': nDa, 'leg_D_literal_texts': nDb, 'oracle_round_trips': nO, 'evaluations': nPr + nP + nL + nDa + nDb + nO, 'distinct_nontrivial': nPr + nO,
+    res.coverage.update({'leg_Pr_trees': nPr, 'leg_P_texts': nP, 'leg_L_integers': nL, 'leg_D_ministring_cases': nDa, 'leg_D_literal_texts': nDb, 'leg_Q_fstring_constants': nQ[0], 'oracle_round_trips': nO, 'evaluations': nPr + nP + nL + nDa + nDb + nO, 'distinct_nontrivial': nPr + nO,
                          'rule': 'leg Pr/P: random operator-core trees plus every (parent operator, slot, child operator) combination, printed texts and texts with one paren pair / one character removed; oracle: every expression form x atom, every (parent form, slot, child form), random depth 3, statement templates x expressions, corpus files; non-trivial = distinct source'})
     return res.finish()
